@@ -118,6 +118,28 @@ Theorem C03_hex_equal_iff : forall q i bo, 0 < q -> fits i q ->
 Proof. exact write_hex_inj. Qed.
 Print Assumptions C03_hex_equal_iff.
 
+(* ---------------- fixed-width coordinate layout ---------------- *)
+(* the layout the P-256 / BN G1 / residue / Ed25519 point encodings are compared
+   with byte for byte on points with known coordinates: fixed length, and every
+   coordinate - with any number of leading zero bytes - is read back from its
+   own field; injective *)
+Theorem C03_coord_length : forall bo w prefix cs,
+  length (coord_enc bo w prefix cs) = (length prefix + w * length cs)%nat.
+Proof. exact coord_enc_length. Qed.
+Print Assumptions C03_coord_length.
+
+Theorem C03_coord_roundtrip : forall bo w prefix cs,
+  Forall (fun c => 0 <= c < 256 ^ Z.of_nat w) cs ->
+  coord_dec bo w (length cs) (skipn (length prefix) (coord_enc bo w prefix cs)) = cs.
+Proof. exact coord_dec_enc. Qed.
+Print Assumptions C03_coord_roundtrip.
+
+Theorem C03_coord_injective : forall bo w prefix cs cs',
+  Forall (fun c => 0 <= c < 256 ^ Z.of_nat w) cs -> Forall (fun c => 0 <= c < 256 ^ Z.of_nat w) cs' ->
+  length cs = length cs' -> coord_enc bo w prefix cs = coord_enc bo w prefix cs' -> cs = cs'.
+Proof. exact coord_enc_inj. Qed.
+Print Assumptions C03_coord_injective.
+
 (* ---------------- points: abstract contract ---------------- *)
 (* for every encoding of the advertised length with decode(encode P) = P:
    identical bytes iff same element; re-encoding identical; values reached by
